@@ -303,6 +303,20 @@ def jobs(tier):
                     ems=list(e), times=[t0, t1]), {}))
         out.append(('ll', 'case_ll', dict(
             ems=['Gaussian'], times=[[2.5, 1.0]], unsorted=True), {}))
+        # schedules that agree in length and end points and differ inside
+        # (also with a tie, and agreeing in all but one end point)
+        inner = [([0.0, 1.0, 4.0], [0.0, 2.5, 4.0]),
+                 ([0.0, 1.0, 2.5, 4.0], [0.0, 2.0, 2.0, 4.0]),
+                 ([0.0, 2.5, 4.0], [0.0, 1.0, 4.0]),
+                 ([1.0, 2.0, 4.0], [1.0, 2.5, 3.0]),
+                 ([0.0, 1.0, 4.0], [0.5, 1.0, 4.0])]
+        for k, (t0, t1) in enumerate(inner):
+            out.append(('ll', 'case_ll', dict(
+                ems=list(pairs[(5 * k + 1) % 16]), times=[t0, t1],
+                posterior=(k % 2 == 0)), {}))
+        out.append(('ll', 'case_ll', dict(
+            ems=['Gaussian', 'LogNormal', 'Gaussian'],
+            times=[[0.0, 1.0, 4.0], [0.0, 4.0], [0.0, 2.5, 4.0]]), {}))
         # three and four outputs: error models with different numbers of
         # parameters in every position (offsets of the parameter slices)
         trip = list(itertools.product(refs.ERROR_MODELS, repeat=3))
